@@ -165,7 +165,7 @@ Print Assumptions C11_scalar_option_classes.
 (* a float, WHATEVER its value (2.5, 0.5, but also 600.0), is rejected at every option of the regenerated schema but
    these nine: no float is ever truncated to an integer *)
 Theorem C11_scalar_float_options : forall r,
-  map (map pk_str) (filter (fun p => negb (wrong_rejected component_full p (VFlt r))) option_leaves)
+  map (map pk_str) (float_admitting r)    (* = the options p with wrong_rejected component_full p (VFlt r) = false *)
   = [["workflowAttributes"; "repeatInterval"];
      ["workflowAttributes"; "optimizer"; "exploitChance"]; ["workflowAttributes"; "optimizer"; "exploitTarget"];
      ["workflowAttributes"; "optimizer"; "exploitTargetLow"]; ["workflowAttributes"; "optimizer"; "exploitTargetHigh"];
@@ -240,14 +240,14 @@ Print Assumptions C11_never_converted.
    option converted with int() (the repeat interval excepted), or a string that int() does not parse, is rejected *)
 Theorem C11_float_for_int_option_rejected : forall w i c p k r m,
   accept component_full w = true -> nth_error (w_comps w) i = Some c -> pget p (c_doc c) = Some (VDict m) ->
-  In (p ++ [k]) int_options -> p ++ [k] <> p_repeat_interval ->
+  In (p ++ [k])%list int_options -> (p ++ [k])%list <> p_repeat_interval ->
   accept component_full (mutate (WrongType i p k (VFlt r)) w) = false.
 Proof. exact float_for_int_option_rejected. Qed.
 Print Assumptions C11_float_for_int_option_rejected.
 
 Theorem C11_string_for_int_option_rejected : forall w i c p k s m,
   accept component_full w = true -> nth_error (w_comps w) i = Some c -> pget p (c_doc c) = Some (VDict m) ->
-  In (p ++ [k]) int_options -> py_int s = None ->
+  In (p ++ [k])%list int_options -> py_int s = None ->
   accept component_full (mutate (WrongType i p k (VStr s)) w) = false.
 Proof. exact string_for_int_option_rejected. Qed.
 Print Assumptions C11_string_for_int_option_rejected.
